@@ -832,6 +832,7 @@ def check_dispatch(h, f=None):
         first_end = min([cz['t'] for cz in causes], default=None)
         units = []      # (kind, ref, t_arrive, seq_arrive, [payload...], obj)
         optional = []   # payloads that may or may not produce an event
+        grey_units = 0  # bodies the reference does not decide
         for req in c.posts + [r for r in c.raws if r.method == 'POST']:
             if req.seq_arrive is None or ('sid=' + sid) not in req.query:
                 continue
@@ -872,6 +873,7 @@ def check_dispatch(h, f=None):
                         else:
                             break       # refused type terminates the body
                     if grey:
+                        grey_units += 1
                         continue
             units.append(('post', req.rid, req.t_arrive, req.seq_arrive,
                           exp, req))
@@ -953,7 +955,7 @@ def check_dispatch(h, f=None):
         for m in c.sent_msgs:
             sent_keys.add(_key(m['val']))
         for i, e in enumerate(events):
-            if used[i]:
+            if used[i] or grey_units:
                 continue
             opt = [j for j, v in enumerate(optional)
                    if R.same_value(v, e['arg'])]
@@ -1585,6 +1587,7 @@ def check_completion(h, f=None):
         if req.kind != 'http' or req.seq_arrive is None:
             continue
         req.maxsize = h.world.server.max_http_buffer_size
+        req.pkt_limit = h.world.app_opts.get('max_decode_packets', 16)
         shape = _req_shape(req)
         if _half_ws_open(req) and (req.gw_errors or req.status is None):
             out.append(V('well-formed-response',
@@ -1703,7 +1706,8 @@ def _req_shape(req):
     q = _up.parse_qs(req.query)
     kind = req.method
     if req.method == 'POST' and _refused_body(
-            req, maxsize=getattr(req, 'maxsize', 10 ** 6)):
+            req, limit=getattr(req, 'pkt_limit', 16),
+            maxsize=getattr(req, 'maxsize', 10 ** 6)):
         kind += '|refused-body'
     if 'sid' in q:
         st = (req.snap_arrive or {}).get(q['sid'][0])
